@@ -10,13 +10,29 @@ TLC:       CopyrightDoc_codec*.cfg  closed: every list of <= 4 / 5 lines over 8 
            CopyrightDoc_neg.cfg     spec-level negative controls, re-run in every check:
            NoDotEscape -> EncodedSafe / RoundTrip, DecoderStrips -> CodecLaw / RoundTrip,
            DotAnyIndent -> CodecLaw; state kept between calls (memo history variable): StaleDump ->
-           RoundTrip, LicMemoBySynopsis -> RoundTrip, ParseMemoAliased -> CodecRepeat
+           RoundTrip, LicMemoBySynopsis -> RoundTrip, ParseMemoAliased -> CodecRepeat;
+           CommaSeparates (separator look-alikes at the edge of a word are cut off) -> RoundTrip,
+           RejectDrops (a refused assignment removes the old value) -> RoundTrip
+           word shapes: the payload ids of patterns carry a shape (CopyrightDoc!WShape: plain / edge = begins or
+           ends with a separator look-alike such as , ; : | / punct = punctuation only); every CASE has words of
+           every shape, concretized accordingly in EVERY concretization (the canonical one included)
+           refused calls: the build histories (action DocReject: on the paragraph added last / the first
+           paragraph / the header / the document, further add_* calls follow) and the edits of the re-parsed
+           document (BadEdits) contain calls the API REFUSES (CopyrightDoc!Rejects: raw values
+           Deb822.validate_input refuses, lists the converters refuse, None for a mandatory field, item
+           assignment / deletion of restricted fields, deletion of a missing field, add_* of the wrong class,
+           header = <not a Header>); ApplyCall says they change nothing: HistoryKept, RoundTrip
 binding:   (a) every CASE line of both closed configurations (input AND expected result computed by
                TLC) is concretized (seeded) and replayed into debian.copyright
            (b) random documents (0..6 paragraphs, texts up to 8 lines, built through the API or parsed
                from a text with any paragraph order) and random line lists are executed by the real
                code, abstracted by an independent line classifier and validated by TLC
                (TraceCopyrightDoc); corrupted control traces must be rejected
+               -- the documents of (b) are built by add_* calls AND other calls in between (setters of
+               paragraphs and header, item access; accepted and refused ones: Tr.calls with the observed
+               `raised`), their re-parsed dumps are edited by the same kinds of calls (Tr.edits); TLC folds
+               ApplyCall over them: a call raised exactly when Rejects says so, a refused call left the document
+               alone (the round trips are compared with ApplyCalls(...)), an accepted call did what its record says
            (c) no state between calls or objects: in (a) and (b) License objects and pattern lists are
                shared between paragraphs and between documents; the re-parsed document is then CHANGED
                (TLC's Edits in (a): files / copyright / license with the same synopsis / one more add_*;
@@ -38,8 +54,17 @@ variant: evidence per_action_counts "parse:*", "dump:*", "(api) *".
   Copyright(sequence) one str / one UTF-8 bytes object              parse forms str, bytes-str
   Copyright(sequence) iterator / generator                          parse forms iter, gen
   Copyright(sequence) text file object (StringIO, file on disk)     parse forms file, disk-text
-  Copyright(sequence) byte lines / BytesIO / binary file + encoding parse forms bytes, bytesio, disk-bin; latin1
+  Copyright(sequence) byte lines / BytesIO / binary file + encoding parse forms bytes, bytesio, disk-bin, gen-bytes; latin1
                                                                     (encoding='latin-1' when the text allows)
+  Copyright(sequence) other kinds of file objects (SIZE_STRESS 4):  parse forms disk-unbuf, short-reads, short-text, gzip,
+    unbuffered file, BufferedReader / TextIOWrapper over a raw        gzip-disk, gzip-text, bz2, lzma, spooled, spooled-text
+    stream with short reads (1..7 bytes), GzipFile / gzip.open rb,    (rotated like every other form; every aligned document
+    rt / BZ2File / LZMAFile, SpooledTemporaryFile (binary, text)      goes through a file-object form)
+  block-boundary alignment of the dumped text (SIZE_STRESS 4)       trace leg, aligned_suite: a line end inside a value /
+                                                                    between two fields / the paragraph separator / the last
+                                                                    byte at 2^k-2, 2^k-1, 2^k (k = 9..17: all of 4096, 8192,
+                                                                    65536, 131072, a sample of the others; thorough: all) and a
+                                                                    multi-byte character straddling 2^k; evidence aligned_cases
   Copyright(lines, 'utf-8', True) / (sequence=, encoding=, strict=) parse forms positional, keyword
   Copyright(..., strict=False) on a valid document                  parse form nonstrict (same result, no warning)
   CRLF line ends                                                    parse form crlf
@@ -55,12 +80,20 @@ variant: evidence per_action_counts "parse:*", "dump:*", "(api) *".
   FilesParagraph.create / LicenseParagraph.create positional        primary
   ... keyword arguments; create + files/copyright/license setters   build variants kw, setters
   FilesParagraph(Deb822) / LicenseParagraph(Deb822) constructors    build variant ctor (over Deb822(str) / Deb822(lines))
-  files / copyright / license getters and setters                   every execution; setters: edits, scribble
+  files / copyright / license getters and setters                   every execution; setters: edits, scribble; calls of the
+                                                                    build phase (replay: refused; trace: accepted + refused)
   comment getter / setter, custom fields p[k] = v, p[k], iter, len  paragraph "extra" fields (spec: extra), read through
                                                                     iteration + item access and compared with the getter
+  setter = None (comment: removes; files / copyright / license /    calls "none" (spec: Mandatory): replay + trace, build phase
+    format: TypeError), del p[k] (custom: removes; restricted /      and edits of the re-parsed document
+    missing: refused), p[<restricted>] = v (RestrictedFieldError)   calls "item" / "delitem" (key case rotated)
+  a REFUSED call (ValueError / TypeError / RestrictedFieldError /   spec: Rejects, ApplyCall(D, e) = D; replay: DocReject / BadEdits
+    KeyError) at any point of a history                             cases; trace: ~55 % of the random calls; the size suite
+  files = list / tuple / generator; entries = list / tuple          rotated in do_call
   Header(): format, upstream_name, upstream_contact, license        header kinds of the spec; every execution
   Header: source, disclaimer, comment, copyright, custom fields,    spec: header extra / fe / fi (kind "full"; random in
-    files_excluded, files_included, known_format, current_format    traces)
+    files_excluded, files_included, known_format, current_format    traces); header setters also as calls of both phases
+                                                                    (name / entries / raw / lic / none / item / delitem)
   Header(Deb822) constructor + Copyright.header setter              30 % of rotated executions
   License(s, t) / (synopsis=, text=) / License(s) / License(s,      rotated at construction; _replace; read through
     None) / _replace; attributes, indexes, unpacking                attributes / indexes / unpacking
@@ -69,12 +102,17 @@ variant: evidence per_action_counts "parse:*", "dump:*", "(api) *".
   format_multiline_lines / parse_multiline_as_lines (positional,    codec cases and codec traces
     keyword)
   format_multiline / parse_multiline (string variants, None)        codec cases (sdom) and traces (spec: CodecStrLaw)
-  Copyright.dump() / dump(f=text file) / dump(f) / file on disk     dump forms str, file, file-pos, disk
+  Copyright.dump() / dump(f=text file) / dump(f) / file on disk /   dump forms str, file, file-pos, disk, spooled,
+    text SpooledTemporaryFile / TextIOWrapper(BytesIO) / gzip 'wt'    wrapped-bytesio, gzip
   paragraph.dump() / dump(fd, text_mode=True) / dump(binary fd) /   assembling the text of start "parsed", Deb822 data of
     dump(fd=, encoding=) of FilesParagraph, LicenseParagraph, Header  the ctor variants
-  out of domain: RestrictedFieldError on p['Files'] = ... (not a way to build a document), TypeError of add_* for a
-  wrong type, header format setter (a document in another format is not in the statement), globs_to_re (C16),
-  function_deprecated_by aliases (the module has none), pickle / copy (not documented for these classes).
+  out of domain: header format setter with another format (a document in another format is not in the statement),
+  globs_to_re (C16), function_deprecated_by aliases (the module has none), pickle / copy (not documented for these
+  classes).  A call the specification refuses but the tree CARRIES OUT puts a value outside the domain into the
+  document (DESIGN D3): that execution is unspecified from then on (replay: no verdict; trace: TLC's note "refused
+  call carried out"), the exception CLASS of a refused call is diagnostic.  Pattern / entry payloads: any ASCII
+  punctuation at the edges or as the whole word is inside the domain (white space is the only separator); a lone '.'
+  keeps its own id (DotWord).
 
 verdict observables (DESIGN 5, C17): the strict re-parse of dump() raises nothing and logs no warning;
            paragraph kinds and order, files, copyright, license synopsis and text, header fields
@@ -98,8 +136,8 @@ import core
 
 MANIFEST = dict(
     technique="TLA+ spec (CopyrightDoc: multiline codec over line classes, restricted-field converters, Deb822 dump/reader, document layer) model-checked by TLC in two closed configurations; every CASE (input + expected result) replayed into debian.copyright; recorded executions on random documents and line lists validated by TLC (TraceCopyrightDoc)",
-    text="TLC checks, for every list of up to 5 lines over 8 line-class symbols, that decoding the ' .' encoding returns the stated normal form, the original list under the statement's condition, a stable re-encoding and a value that Deb822 accepts and cannot split; and, for every header kind and every history of up to 3 add_*_paragraph calls over context paragraphs and one focus paragraph of every shape, that Load(Dump(D)) = D in strict mode and Dump(Load(Dump(D))) = Dump(D). Each of those cases is concretized (indentation with blanks and tabs, non-ASCII, '.'-prefixed words, ' .' lines, PGP-looking and field-looking lines, long lines, globs with escapes) and executed by the real Copyright / FilesParagraph / LicenseParagraph / License code with every verdict observable compared with TLC's expected result; random documents of 0..6 paragraphs with texts of up to 8 lines (built through the API or parsed in any paragraph order) and random line lists are recorded from the real code and validated by TLC. State leaking between calls or objects is covered in both directions: the specification carries what the first round trip produced as a history variable (memo) that the design must never read; every execution shares License objects and pattern lists between paragraphs and documents, edits the re-parsed document (TLC's edits / random edit sequences explained by ApplyEdits) and makes a second round trip, parses the first dump again after its first parse result was changed, re-examines the live objects of the previous case, and calls the codec twice with the returned list changed in between.",
-    note="Small-scope: closed over the stated bounds; characters inside a line are sampled (seeded), not enumerated. Domain (DESIGN D1, D3): no str.splitlines boundary inside a line, license texts do not end in an empty line, the codec is not given [''], no trailing white space, copyright continuation lines are indented and non-blank; empty synopsis, white-space-only / lone-dot lines in documents are executed as unspecified. Trusted: TLC, the concretizer, the independent line classifier, the projections. Corrupted control traces and three spec-level negative controls are required to fail in every run.",
+    text="TLC checks, for every list of up to 5 lines over 8 line-class symbols, that decoding the ' .' encoding returns the stated normal form, the original list under the statement's condition, a stable re-encoding and a value that Deb822 accepts and cannot split; and, for every header kind and every history of up to 3 add_*_paragraph calls over context paragraphs and one focus paragraph of every shape, that Load(Dump(D)) = D in strict mode and Dump(Load(Dump(D))) = Dump(D). Each of those cases is concretized (indentation with blanks and tabs, non-ASCII, '.'-prefixed words, ' .' lines, PGP-looking and field-looking lines, long lines, globs with escapes) and executed by the real Copyright / FilesParagraph / LicenseParagraph / License code with every verdict observable compared with TLC's expected result; random documents of 0..6 paragraphs with texts of up to 8 lines (built through the API or parsed in any paragraph order) and random line lists are recorded from the real code and validated by TLC. State leaking between calls or objects is covered in both directions: the specification carries what the first round trip produced as a history variable (memo) that the design must never read; every execution shares License objects and pattern lists between paragraphs and documents, edits the re-parsed document (TLC's edits / random edit sequences explained by ApplyEdits) and makes a second round trip, parses the first dump again after its first parse result was changed, re-examines the live objects of the previous case, and calls the codec twice with the returned list changed in between. Building histories also contain the calls the API refuses (values Deb822.validate_input or the list converters refuse, None for a mandatory field, item access to restricted fields, add_* of the wrong class): the specification (Rejects / ApplyCall) says that they raise and change nothing, TLC enumerates them inside the build histories and the edits, and recorded histories with accepted and refused calls are explained by folding ApplyCall. Words of pattern lists carry a shape in the model (plain / separator look-alike at an edge / punctuation only) so that every case has all of them; documents are also laid out so that line ends, field ends, paragraph separators and multi-byte characters fall on 2^k block boundaries and are read through every kind of file object (short reads, unbuffered, gzip/bz2/lzma, spooled).",
+    note="Small-scope: closed over the stated bounds; characters inside a line are sampled (seeded), not enumerated. Domain (DESIGN D1, D3): no str.splitlines boundary inside a line, license texts do not end in an empty line, the codec is not given [''], no trailing white space, copyright continuation lines are indented and non-blank; empty synopsis, white-space-only / lone-dot lines in documents are executed as unspecified. Trusted: TLC, the concretizer, the independent line classifier, the projections. A call the specification refuses but the code carries out makes that execution unspecified (no verdict). Corrupted control traces and seven spec-level negative controls are required to fail in every run.",
     design="5 (C17)")
 
 D1_CHARS = "\n\r\v\f\x1c\x1d\x1e\x85\u2028\u2029"
@@ -108,7 +146,9 @@ NEG_CONTROLS = [("codec", "NoDotEscape", "EncodedSafe"), ("doc", "NoDotEscape", 
                 ("codec", "DotAnyIndent", "CodecLaw"),
                 # state kept between calls (memo history variable of the specification)
                 ("doc", "StaleDump", "RoundTrip"), ("doc", "LicMemoBySynopsis", "RoundTrip"),
-                ("codec", "ParseMemoAliased", "CodecRepeat")]
+                ("codec", "ParseMemoAliased", "CodecRepeat"),
+                # separator look-alikes at the edges of a word; a refused assignment that removes the old value
+                ("doc", "CommaSeparates", "RoundTrip"), ("doc", "RejectDrops", "RoundTrip")]
 
 # ------------------------------------------------------------------ concretization pools
 # bodies of Plain / Indented text lines: start with a non-blank, are not a lone '.', no trailing blank
@@ -144,6 +184,16 @@ CANON = {1: "glob%d", 2: "2014 Holder %d", 3: "LIC-%d", 4: "text line %d", 5: "n
 # 7: lines of a Comment (raw value), 8: entries of Files-Excluded / Files-Included, 9: Source / custom single lines
 POOLS = {1: PAT_POOL, 2: COPY_POOL, 3: SYN_POOL, 4: TEXT_POOL, 5: NAME_POOL, 6: CONTACT_POOL, 7: COPY_POOL, 8: PAT_POOL,
          9: SOURCE_POOL}
+
+# ---- separator look-alikes (spec: WShape).  White space is the ONLY separator of a pattern list, a newline the
+# only one of a line-based list: every other ASCII punctuation character -- the separators of other list
+# syntaxes (', ' of the pre-1.0 drafts, ';', ':', '|') included -- is payload, also as the first / last character
+# of a word and as the whole word.  Rotated over both edges of every kind of payload by spice().
+PUNCT = list("!\"#$%&'()*+,-./:;<=>?@[\\]^_`{|}~")
+SEPLIKE = [",", ",", ";", ":", "|", ",,", ";;", "::", "||", ",;", "/", "&", "+", "="]
+PUNCT_ONLY = SEPLIKE + [c for c in PUNCT if c != "."] + [c * 2 for c in PUNCT] + [",.", ".,", "...", "-,-", "{,}", "(,)", "[,]", "<,>",
+                                                                                 "'\"'", "--", "->", "=>", "&&", "!!", "#,", ",#"]
+
 
 # ---- character / encoding stress (notes/SIZE_STRESS.md part 2); comparisons are by code point, never normalised
 # one character per UTF-8 TRAILING byte 0x80..0xBF, in 2-, 2-, 3- and 4-byte encodings (code point = i mod 64)
@@ -185,18 +235,51 @@ TEXT_POOL += _UNI + [a + " and " + b for a, b in TWINS]
 COPY_POOL += ["2014 " + x for x in _UNI[::2]] + ["\u00a9 2001 " + b + " " + a for a, b in TWINS[:3]]
 SYN_POOL += [x for x in _UNI if x != "\u0301lone"][1::3] + ["GPL-2+ " + TWINS[0][0], "GPL-2+ " + TWINS[0][1]]
 PAT_POOL += [x + "/*" for x in _UNI[::2]] + [TWINS[0][0], TWINS[0][1], TWINS[1][0], TWINS[1][1]]
+PAT_POOL += ["data/x" + c for c in SEPLIKE[:8]] + PUNCT_ONLY[:24] + ["a,b", "*.{c,h}", "x;y", ",lead", ";lead", "src/*.c,", "*.h;"]
 NAME_POOL += _UNI[1::5]
 CONTACT_POOL += [x + " <x@example.org>" for x in _UNI[2::5]]
 TEXT_EDGE_POOL = TEXT_POOL + LOOKALIKE_TEXT            # bodies of license TEXT lines (never a first line)
 CODEC_POOL += _UNI + LOOKALIKE_TEXT
 
 
+def edge_word(rng, stem):
+    """a word that begins and / or ends with separator look-alikes"""
+    r = rng.random()
+    a, b = rng.choice(SEPLIKE + PUNCT), rng.choice(SEPLIKE + PUNCT)
+    if r < 0.55:
+        return stem + a
+    if r < 0.8:
+        return a + stem
+    return a + stem + b
+
+
+def punct_word(rng, n=None):
+    """a word made of punctuation only (n characters when given); never a lone '.'"""
+    if n is None:
+        return rng.choice(PUNCT_ONLY)
+    w = "".join(rng.choice(PUNCT) for _ in range(n))
+    return "," if w == "." else w
+
+
+def wshape(code):
+    """CopyrightDoc!WShape of a payload id (patterns: part 1; also used for the entries of Files-Excluded /
+    Files-Included: part 8)"""
+    return ("punct", "plain", "edge")[(code % 100) % 3] if (code // 100) % 10 in (1, 8) and code >= 800 else "plain"
+
+
 def spice(rng, s, edges=True):
     """rotate characters covering every UTF-8 trailing byte to the END of a payload and characters
-    covering every lead byte to its START (same length in code points when the payload is long)"""
+    covering every lead byte to its START (same length in code points when the payload is long); likewise
+    the ASCII punctuation characters (separator look-alikes) to both edges"""
     if not edges or not s:
         return s
     r = rng.random()
+    if 0.62 < r < 0.74:
+        c = rng.choice(SEPLIKE + PUNCT)
+        return (s[:-len(c)] + c) if len(s) > 8 else s + c
+    if 0.74 <= r < 0.80:
+        c = rng.choice(SEPLIKE + PUNCT)
+        return (c + s[len(c):]) if len(s) > 8 else c + s
     if r < 0.30:
         c = rng.choice(rng.choice(TRAIL))
         s = (s[:-1] + c) if len(s) > 8 else s + c
@@ -292,15 +375,39 @@ class Conc:
 
     def pats(self, codes):
         """the patterns of one Files field; size-stressed: joined length / single lengths at boundaries"""
-        if self.stress and codes and any("b:%d" % c not in self.c for c in codes):
+        good = [c for c in codes if c > 0]
+        if self.stress and good and any("b:%d" % c not in self.c for c in good):
             rng = self.rng
             if rng.random() < 0.5:
-                lens = split_total(rng, rng.choice(JOINED), len(codes))
+                lens = split_total(rng, rng.choice(JOINED), len(good))
             else:
-                lens = [size_len(rng) for _ in codes]
-            for c, n in zip(codes, lens):
-                self.c.setdefault("b:%d" % c, spice(rng, sized_pattern(rng, n)))
-        return [self.body(c) for c in codes]
+                lens = [size_len(rng) for _ in good]
+            for c, n in zip(good, lens):
+                self.c.setdefault("b:%d" % c, self.shaped(c, n))
+        return [self.word(c, "pat") for c in codes]
+
+    def shaped(self, code, n):
+        """a pattern of n characters with the word shape of its payload id (CopyrightDoc!WShape)"""
+        sh = wshape(code)
+        if sh == "punct":
+            return punct_word(self.rng, min(n, 64))
+        if sh == "edge" and n >= 2:
+            c = self.rng.choice(SEPLIKE + PUNCT)[:1]
+            t = sized_pattern(self.rng, n - 1)
+            return t + c if self.rng.random() < 0.7 else c + t
+        return spice(self.rng, sized_pattern(self.rng, n))
+
+    def word(self, code, ctx):
+        """one word of a list: 0 = the empty string, -2 = a string containing a separator of the list syntax
+        (`ctx`: "pat" white space, "entry" a newline) -- both only occur in calls the API rejects"""
+        if code == 0:
+            return self.get("bad0:" + ctx, lambda: "" if self.canonical or ctx == "pat" else self.rng.choice(["", " ", "\t"]))
+        if code == -2:
+            if ctx == "pat":
+                return self.get("bad2:pat", lambda: "a b" if self.canonical else self.rng.choice(
+                    ["a b", "tab\there", "new\nline", " lead", "trail ", "x\u00a0y", "em\u2003sp", "a  b", "cr\rx", "ff\x0cx"]))
+            return self.get("bad2:entry", lambda: "a\nb" if self.canonical else self.rng.choice(["a\nb", "x y\n z", "one\n\ntwo", "p\nq"]))
+        return self.body(code)
 
     def get(self, key, make):
         if key not in self.c:
@@ -317,17 +424,24 @@ class Conc:
 
     def body(self, code):
         part = (code // 100) % 10
+        shape = wshape(code)
 
         def make():
             if self.canonical:
                 f = CANON[part]
-                return f % ((code,) * f.count("%d"))
+                t = f % ((code,) * f.count("%d"))
+                # (the canonical concretization has the word shapes too: a trailing / only separator look-alikes)
+                return t + SEPLIKE[(code // 1000 - 1) % 9] if shape == "edge" else (PUNCT_ONLY[code % len(PUNCT_ONLY)] if shape == "punct" else t)
+            if shape == "punct":
+                return punct_word(self.rng)
             if self.stress:
                 if part == 1:
-                    return spice(self.rng, sized_pattern(self.rng, size_len(self.rng)))
+                    return self.shaped(code, size_len(self.rng))
                 if part == 8:
-                    return spice(self.rng, sized_pattern(self.rng, size_len(self.rng, 129)))
+                    return self.shaped(code, size_len(self.rng, 129))
                 return spice(self.rng, sized_text(self.rng, size_len(self.rng, 257 if part in (5, 6, 9) else 4097)))
+            if shape == "edge":
+                return edge_word(self.rng, self.rng.choice(POOLS[part]))
             return spice(self.rng, self.rng.choice(TEXT_EDGE_POOL if part == 4 else POOLS[part]))
         return self.get("b:%d" % code, make)
 
@@ -533,8 +647,38 @@ def _para_text(p, vr):
 
 _SCRATCH = {"dir": None, "n": 0}
 PARSE_FORMS = ["lines", "lines-nonl", "str", "bytes-str", "bytes", "iter", "gen", "tuple", "file", "bytesio", "disk-text",
-               "disk-bin", "positional", "keyword", "nonstrict", "crlf", "latin1"]
-DUMP_FORMS = ["str", "file", "file-pos", "disk"]
+               "disk-bin", "positional", "keyword", "nonstrict", "crlf", "latin1",
+               # kinds of file objects (notes/SIZE_STRESS.md part 4)
+               "disk-unbuf", "short-reads", "short-text", "gzip", "gzip-disk", "gzip-text", "bz2", "lzma", "spooled", "spooled-text",
+               "gen-bytes"]
+# the forms that hand the text over as a FILE OBJECT (the aligned documents go through every one of them)
+FILE_FORMS = ["file", "bytesio", "disk-text", "disk-bin", "disk-unbuf", "short-reads", "short-text", "gzip", "gzip-disk", "gzip-text",
+              "bz2", "lzma", "spooled", "spooled-text"]
+FILE_KINDS = {"file": "io.StringIO", "bytesio": "io.BytesIO", "disk-text": "file on disk, text mode", "disk-bin": "file on disk, binary, buffered",
+              "disk-unbuf": "file on disk, binary, buffering=0 (io.FileIO)", "short-reads": "io.BufferedReader over a raw stream returning 1..7 bytes per read",
+              "short-text": "io.TextIOWrapper over such a short-read stream", "gzip": "gzip.GzipFile over BytesIO", "gzip-disk": "gzip.open(path, 'rb') (fileno() names the compressed file)",
+              "gzip-text": "gzip.open(path, 'rt')", "bz2": "bz2.BZ2File", "lzma": "lzma.LZMAFile", "spooled": "tempfile.SpooledTemporaryFile (binary, rolled over or not)",
+              "spooled-text": "tempfile.SpooledTemporaryFile (text)", "gen": "generator of str lines", "gen-bytes": "generator of byte lines",
+              "dump:file": "dump(f=io.StringIO)", "dump:disk": "dump(f) to a file on disk", "dump:spooled": "dump(f) to a text SpooledTemporaryFile",
+              "dump:wrapped-bytesio": "dump(f) to io.TextIOWrapper over BytesIO", "dump:gzip": "dump(f) to gzip.open(path, 'wt')"}
+DUMP_FORMS = ["str", "file", "file-pos", "disk", "spooled", "wrapped-bytesio", "gzip"]
+
+
+class _ShortRaw(io.RawIOBase):
+    """a raw stream whose reads return 1..7 bytes"""
+
+    def __init__(self, data):
+        io.RawIOBase.__init__(self)
+        self._d, self._p, self._r = data, 0, random.Random(len(data))
+
+    def readable(self):
+        return True
+
+    def readinto(self, b):
+        n = min(len(b), self._r.randint(1, 7), len(self._d) - self._p)
+        b[:n] = self._d[self._p:self._p + n]
+        self._p += n
+        return n
 
 
 def _scratch_file():
@@ -550,7 +694,7 @@ def parse_doc(C, text, form):
             return C.Copyright(text.encode("latin-1").splitlines(True), encoding="latin-1", strict=True)
         except UnicodeEncodeError:
             form = "bytes"
-    if form in ("disk-text", "disk-bin") and _SCRATCH["dir"] is None:
+    if form in ("disk-text", "disk-bin", "disk-unbuf", "gzip-disk", "gzip-text") and _SCRATCH["dir"] is None:
         form = "file"
     if form == "lines":
         return C.Copyright(lines, strict=True)
@@ -581,6 +725,46 @@ def parse_doc(C, text, form):
                 return C.Copyright(f, strict=True)
         finally:
             os.unlink(path)
+    if form in ("disk-unbuf", "gzip-disk", "gzip-text"):
+        import gzip
+        data = text.encode("utf-8")
+        path = _scratch_file()
+        with open(path, "wb") as f:
+            f.write(data if form == "disk-unbuf" else gzip.compress(data, 1))
+        try:
+            with (open(path, "rb", buffering=0) if form == "disk-unbuf" else gzip.open(path, "rb") if form == "gzip-disk"
+                  else gzip.open(path, "rt", encoding="utf-8", newline="\n")) as f:
+                return C.Copyright(f, strict=True)
+        finally:
+            os.unlink(path)
+    if form in ("short-reads", "short-text", "gzip", "bz2", "lzma", "spooled", "spooled-text", "gen-bytes"):
+        import bz2
+        import gzip
+        import lzma
+        import tempfile
+        data = text.encode("utf-8")
+        if form == "gen-bytes":
+            return C.Copyright((x for x in data.splitlines(True)), encoding="utf-8", strict=True)
+        if form == "short-reads":
+            f = io.BufferedReader(_ShortRaw(data))
+        elif form == "short-text":
+            f = io.TextIOWrapper(io.BufferedReader(_ShortRaw(data)), encoding="utf-8", newline="\n")
+        elif form == "gzip":
+            f = gzip.GzipFile(fileobj=io.BytesIO(gzip.compress(data, 1)))
+        elif form == "bz2":
+            f = bz2.BZ2File(io.BytesIO(bz2.compress(data, 1)))
+        elif form == "lzma":
+            f = lzma.LZMAFile(io.BytesIO(lzma.compress(data, preset=0)))
+        elif form == "spooled":
+            f = tempfile.SpooledTemporaryFile(max_size=4096 if len(data) % 2 else 1 << 22, dir=_SCRATCH["dir"])
+            f.write(data)
+            f.seek(0)
+        else:
+            f = tempfile.SpooledTemporaryFile(max_size=4096 if len(data) % 2 else 1 << 22, mode="w+", encoding="utf-8", newline="\n", dir=_SCRATCH["dir"])
+            f.write(text)
+            f.seek(0)
+        with f:
+            return C.Copyright(f, strict=True)
     if form == "positional":
         return C.Copyright(lines, "utf-8", True)
     if form == "keyword":
@@ -606,6 +790,29 @@ def dump_doc(c, form):
                 c.dump(f)
             with io.open(path, "r", encoding="utf-8", newline="\n") as f:
                 return f.read()
+        finally:
+            if os.path.exists(path):
+                os.unlink(path)
+    if form == "spooled":
+        import tempfile
+        with tempfile.SpooledTemporaryFile(max_size=8192, mode="w+", encoding="utf-8", newline="\n", dir=_SCRATCH["dir"]) as f:
+            c.dump(f)
+            f.seek(0)
+            return f.read()
+    if form == "wrapped-bytesio":
+        raw = io.BytesIO()
+        f = io.TextIOWrapper(raw, encoding="utf-8", newline="\n")
+        c.dump(f=f)
+        f.flush()
+        return raw.getvalue().decode("utf-8")
+    if form == "gzip" and _SCRATCH["dir"] is not None:
+        import gzip
+        path = _scratch_file()
+        try:
+            with gzip.open(path, "wt", encoding="utf-8", newline="\n", compresslevel=1) as f:
+                c.dump(f)
+            with gzip.open(path, "rb") as f:
+                return f.read().decode("utf-8")
         finally:
             if os.path.exists(path):
                 os.unlink(path)
@@ -691,11 +898,76 @@ def query_files(C, c, names):
 
 
 SCRIBBLE = [{"kind": "scribble"}]
+RAW_ATTR = {"Comment": "comment", "Source": "source", "Disclaimer": "disclaimer", "Copyright": "copyright"}
+ENT_ATTR = {"Upstream-Contact": "upstream_contact", "Files-Excluded": "files_excluded", "Files-Included": "files_included"}
+NONE_ATTR = dict(RAW_ATTR, **{"Files": "files", "License": "license", "Format": "format", "Upstream-Name": "upstream_name"})
 
 
-def apply_edits(C, c, edits):
-    """change a (re-parsed) document through the public setters / add_* calls; for "add" the observed
-    position of the new paragraph is stored in the edit ("at")"""
+def exc_class(e):
+    """the class of an exception as the specification names it (RejectExc)"""
+    n = type(e).__name__
+    if n in ("RestrictedFieldError", "KeyError"):
+        return n
+    return "TypeError" if isinstance(e, TypeError) else ("ValueError" if isinstance(e, ValueError) else n)
+
+
+def do_call(C, c, p, e, vr=None):
+    """ONE call of the public API on paragraph / header `p` of document `c` (spec: EditRec / ApplyCall).  The
+    outcome is stored in the call: raised (an exception came out: the specification says which calls are
+    refused, and that a refused call changes nothing) and exc.  `vr` rotates equivalent argument forms."""
+    k = e["kind"]
+    e["raised"], e["exc"] = False, ""
+    try:
+        if k == "files":
+            v = _mk_pats(e["pats"]) if vr is None or vr.random() < 0.6 else (tuple(e["pats"]) if vr.random() < 0.5 else (x for x in list(e["pats"])))
+            p.files = v
+        elif k == "copy":
+            p.copyright = e["copy"]
+        elif k == "lic":
+            p.license = _mk_lic(C, e["syn"], e["text"], vr)
+        elif k == "raw":
+            setattr(p, RAW_ATTR[e["f"]], e["copy"])
+        elif k == "name":
+            p.upstream_name = e["copy"]
+        elif k == "entries":
+            setattr(p, ENT_ATTR[e["f"]], list(e["pats"]) if vr is None or vr.random() < 0.6 else tuple(e["pats"]))
+        elif k == "none":
+            setattr(p, NONE_ATTR[e["f"]], None)
+        elif k == "item":
+            # (a restricted field is recognised whatever the case of the key; a custom key is stored as given)
+            key = e["f"] if vr is None or e["f"] not in NONE_ATTR or vr.random() < 0.6 else vr.choice([e["f"].lower(), e["f"].upper()])
+            p[key] = e["copy"]
+        elif k == "delitem":
+            key = e["f"] if vr is None or e["f"] not in NONE_ATTR or vr.random() < 0.6 else vr.choice([e["f"].lower(), e["f"].upper()])
+            del p[key]
+        elif k == "wrongadd":
+            wrong = vr.choice(["para", "para", "none", "header", "deb822"]) if vr is not None else "para"
+            lp = C.LicenseParagraph.create(C.License("WRONG", "wrong"))
+            fp = C.FilesParagraph.create(["wrong/*"], "wrong", C.License("WRONG"))
+            if e["f"] == "Files":
+                c.add_files_paragraph({"para": lp, "none": None, "header": c.header}.get(wrong, "Files: *"))
+            elif e["f"] == "License":
+                c.add_license_paragraph({"para": fp, "none": None, "header": c.header}.get(wrong, "License: x"))
+            else:
+                c.header = {"para": fp, "none": None, "header": lp}.get(wrong, "Format: x")
+        elif k == "add":
+            q = _mk_para(C, e["para"])
+            if e["para"]["kind"] == "Files":
+                c.add_files_paragraph(q)
+            else:
+                c.add_license_paragraph(q)
+            e["at"] = [i for i, x in enumerate(list(c.all_paragraphs())[1:]) if x is q][0]
+        else:
+            raise core.MachineryError("unknown call %r" % (e,))
+    except core.MachineryError:
+        raise
+    except Exception as exc:           # an exception of the code under test is an observation
+        e["raised"], e["exc"], e["msg"] = True, exc_class(exc), ("%s: %s" % (type(exc).__name__, exc))[:160]
+
+
+def apply_edits(C, c, edits, vr=None):
+    """change a (re-parsed) document through the public setters / item access / add_* calls (accepted and
+    refused ones); for "add" the observed position of the new paragraph is stored in the edit ("at")"""
     for e in edits:
         body = list(c.all_paragraphs())[1:]
         if e["kind"] == "scribble":
@@ -708,28 +980,57 @@ def apply_edits(C, c, edits):
             c.header.upstream_contact = ["scribbled <s@example.org>", "two"]
             c.add_files_paragraph(C.FilesParagraph.create(["scribbled"], "scribbled", C.License("SCRIBBLED")))
             c.add_license_paragraph(C.LicenseParagraph.create(C.License("SCRIBBLED", "x")))
-        elif e["kind"] == "files":
-            body[e["i"]].files = _mk_pats(e["pats"])
-        elif e["kind"] == "copy":
-            body[e["i"]].copyright = e["copy"]
-        elif e["kind"] == "lic":
-            body[e["i"]].license = _mk_lic(C, e["syn"], e["text"])
-        elif e["kind"] == "add":
-            p = _mk_para(C, e["para"])
-            if e["para"]["kind"] == "Files":
-                c.add_files_paragraph(p)
-            else:
-                c.add_license_paragraph(p)
-            e["at"] = [i for i, q in enumerate(list(c.all_paragraphs())[1:]) if q is p][0]
         else:
-            raise core.MachineryError("unknown edit %r" % (e,))
+            do_call(C, c, c.header if e.get("i", -1) < 0 else body[e["i"]], e, vr)
+
+
+def call_done(e):
+    """the call changed the document: it did not raise"""
+    return not e.get("raised")
+
+
+def edited_hdr(hdr, edits):
+    """the concrete header after the calls that did not raise (for messages; verdicts come from TLC)"""
+    h = dict(hdr)
+    h["extra"] = [list(x) for x in hdr.get("extra") or []]
+    for e in edits:
+        if e.get("i", 0) >= 0 or not call_done(e) or e["kind"] in ("add", "wrongadd"):
+            continue
+        k = e["kind"]
+        if k == "name":
+            h["name"] = e["copy"]
+        elif k == "lic":
+            h["lic"] = [e["syn"], e["text"]]
+        elif k == "entries":
+            h[{"Upstream-Contact": "uc", "Files-Excluded": "fe", "Files-Included": "fi"}[e["f"]]] = list(e["pats"])
+        elif k in ("none", "delitem") and e["f"] == "Upstream-Name":
+            h["name"] = None
+        elif k in ("none", "delitem") and e["f"] == "License":
+            h["lic"] = None
+        else:
+            _edit_extra(h, e)
+    return h
+
+
+def _edit_extra(d, e):
+    x = [list(kv) for kv in d.get("extra") or []]
+    if e["kind"] in ("raw", "item"):
+        if any(kv[0] == e["f"] for kv in x):
+            x = [[kv[0], e["copy"]] if kv[0] == e["f"] else kv for kv in x]
+        else:
+            x.append([e["f"], e["copy"]])
+    else:
+        x = [kv for kv in x if kv[0] != e["f"]]
+    d["extra"] = x
 
 
 def edited_doc(doc, edits):
-    """the concrete document after `edits` (plain list surgery on the harness' own input data, with
-    the OBSERVED position of an added paragraph)"""
+    """the concrete document after the calls that did not raise (plain list surgery on the harness' own
+    input data, with the OBSERVED position of an added paragraph; verdicts come from TLC)"""
     doc = [dict(p) for p in doc]
     for e in edits:
+        if not call_done(e) or e["kind"] == "wrongadd" or (e["kind"] != "add" and e.get("i", -1) < 0):
+            continue
         if e["kind"] == "files":
             doc[e["i"]]["pats"] = list(e["pats"])
         elif e["kind"] == "copy":
@@ -738,6 +1039,8 @@ def edited_doc(doc, edits):
             doc[e["i"]]["syn"], doc[e["i"]]["text"] = e["syn"], e["text"]
         elif e["kind"] == "add":
             doc.insert(e["at"], dict(e["para"]))
+        else:
+            _edit_extra(doc[e["i"]], e)
     return doc
 
 
@@ -751,8 +1054,11 @@ def query_names(ops):
     return names[:8]
 
 
-def exec_doc(hdr, ops, start="api", form="lines", dumpform="str", edits=None, vseed=None):
-    """build -> dump -> strict re-parse -> dump; then change the re-parsed document (`edits`: a function
+def exec_doc(hdr, ops, start="api", form="lines", dumpform="str", edits=None, vseed=None, calls=()):
+    """build (the add_* calls `ops`, and in between the other calls `calls`: setters, item access, accepted and
+    refused ones -- each carries "after" = the number of add_* calls made before it and "i" = the index of its
+    paragraph in ops, -1 = header / document) -> dump -> strict re-parse -> dump; then change the re-parsed
+    document (`edits`: a function
     from the observed paragraph order to a list of edits; None or a None result: scribble over
     everything), dump and strictly re-parse it again (only for real edits), and parse the FIRST dump
     once more.  `vseed` rotates the API entry points used for every step (None: the primary ones);
@@ -766,7 +1072,7 @@ def exec_doc(hdr, ops, start="api", form="lines", dumpform="str", edits=None, vs
     o = {"stage": "", "exc": "", "msg": "", "order": None, "dump": None, "warn": [], "format0": None,
          "hdr": None, "paras": None, "dump2": None, "find": None, "law": None, "alias": False,
          "edits": None, "hdr2": None, "paras2": None, "dump3": None, "dump4": None, "hdr3": None, "paras3": None,
-         "_live": None}
+         "_live": None, "calls": []}
     log = logging.getLogger("debian.copyright")
     handler = _Catch()
     old_prop = log.propagate
@@ -797,22 +1103,41 @@ def exec_doc(hdr, ops, start="api", form="lines", dumpform="str", edits=None, vs
             if vr is not None and vr.random() < 0.3:     # a Header built over a Deb822 object, installed by the setter
                 c.header = C.Header(deb822.Deb822(_para_text(h, vr)))
             objs = [_mk_para(C, op, vr) for op in ops]
+            todo = [dict(e) for e in calls]
+            o["calls"] = todo
+
+            def run_calls(n, targets, early=False):
+                """the pending calls made after <= n add_* calls, in order; early: (rotated) the next calls on
+                paragraph n, before it is added to the document"""
+                for e in todo:
+                    if "raised" in e:
+                        continue
+                    if early and not (e["after"] == n + 1 and e.get("i", -1) == n and vr is not None and vr.random() < 0.3):
+                        break
+                    if not early and e["after"] > n:
+                        break
+                    do_call(C, c, c.header if e.get("i", -1) < 0 else targets[e["i"]], e, vr)
             if start == "api":
-                for p in objs:
+                run_calls(0 if objs else 10 ** 9, objs)
+                for n, p in enumerate(objs):
+                    run_calls(n, objs, early=True)
                     if isinstance(p, C.FilesParagraph):
                         c.add_files_paragraph(p)
                     else:
                         c.add_license_paragraph(p)
+                    run_calls(n + 1 if n + 1 < len(objs) else 10 ** 9, objs)
                 body = [p for p in c.all_paragraphs()][1:]
                 o["order"] = [[i for i, q in enumerate(objs) if q is p][0] for p in body]
             else:
                 htext = _para_text(c.header, vr)
-                if vr is not None and vr.random() < 0.25 and htext.startswith("Format:"):
+                if vr is not None and vr.random() < 0.25 and htext.startswith("Format:") and not any(e.get("i", -1) < 0 for e in todo):
                     htext = "Format-Specification:" + htext[len("Format:"):]     # deprecated field name: warned about, rewritten
                     o["alias"] = True
                 text = htext + "".join("\n" + _para_text(p, vr) for p in objs)
                 c = parse_doc(C, text, vr.choice(PARSE_FORMS) if vr is not None else "lines")
                 o["order"] = list(range(len(objs)))
+                # the other calls are made on the parsed document
+                run_calls(10 ** 9, list(c.all_paragraphs())[1:])
             o["stage"] = "dump"
             d1 = dump_doc(c, dumpform)
             o["dump"] = d1
@@ -844,10 +1169,10 @@ def exec_doc(hdr, ops, start="api", form="lines", dumpform="str", edits=None, vs
                     o["law"] = "License.from_str(License(%r, %r).to_str()) = %r" % (syn, text, back)
             # ---- second phase: nothing of the first round trip may leak into later calls
             o["stage"] = "edit"
-            chosen = edits(o["order"]) if edits is not None else None
+            chosen = edits(o["order"], o["calls"]) if edits is not None else None
             ed = [dict(e) for e in (SCRIBBLE if chosen is None else chosen)]
-            apply_edits(C, c2, ed)
             o["edits"] = ed
+            apply_edits(C, c2, ed, vr)
             if chosen is not None:
                 o["stage"] = "dump3"
                 o["dump3"] = dump_doc(c2, dumpform3)
@@ -917,7 +1242,7 @@ def compare_doc(got_hdr, got, hdr, expected, format0, what):
     return None
 
 
-def judge_doc(o, hdr, expected, expected2=None):
+def judge_doc(o, hdr, expected, expected2=None, hdr2=None):
     """verdict observables of one execution against the expected document (list of paragraphs in
     the expected order, same form as ops) and, when the re-parsed document was edited, against the
     expected edited document; returns None or a message"""
@@ -938,10 +1263,10 @@ def judge_doc(o, hdr, expected, expected2=None):
     if o["exc"]:
         return "%s raised %s: %s" % (STAGE.get(o["stage"], o["stage"]), o["exc"], o["msg"])
     if expected2 is not None:
-        msg = compare_doc(o["hdr2"], o["paras2"], hdr, expected2, o["format0"],
-                          "after changing the re-parsed document (%s), dump() and a strict re-parse"
-                          % ", ".join("%s of paragraph %d" % (e["kind"], e["i"] + 1) if e["kind"] != "add"
-                                      else "add %s paragraph" % e["para"]["kind"] for e in o["edits"]))
+        msg = compare_doc(o["hdr2"], o["paras2"], hdr2 or hdr, expected2, o["format0"],
+                          "after calls on the re-parsed document (%s), dump() and a strict re-parse"
+                          % "; ".join("%s%s" % (describe_call(e), " [raised %s]" % e["exc"] if e.get("raised") else "")
+                                      for e in o["edits"]))
         if msg:
             return msg
         if o["dump4"] != o["dump3"]:
@@ -1071,7 +1396,8 @@ def check_codec_case(case, conc, diag=None):
 
 
 def doc_concretize(case, conc):
-    """(header, ops, expected document, document before the edit or None, edits or None)"""
+    """(header, ops, expected document, document before the edit or None, edits or None, calls of the build
+    phase); edits and calls carry the specification's prediction: rej (the API refuses the call) and exc"""
     def para(p, k):
         return {"kind": p["k"], "pats": conc.pats(p["p"]),
                 "copy": conc.text(p["c"], "c%d" % k) if p["k"] == "Files" else None,
@@ -1089,43 +1415,108 @@ def doc_concretize(case, conc):
            "extra": [[f["k"], conc.text(f["v"], "hx" + f["k"])] for f in h.get("x", [])]}
     ops = [para(p, kof(p)) for p in case["ops"]]
     doc = [para(p, kof(p)) for p in case["doc"]]
+
+    def call(e, ek):
+        """one call record printed by EncEdit, with what the specification says about it (rej, exc)"""
+        k = e["kind"]
+        ce = {"kind": k, "i": e["i"] - 1, "f": e["f"], "rej": bool(e["rej"]), "xexc": e["exc"]}
+        if k == "files":
+            ce["pats"] = conc.pats(e["p"])
+        elif k == "entries":
+            ce["pats"] = [" ".join(conc.word(c, "entry") for c in ent) if ent else conc.word(0, "entry") for ent in e["p"]]
+        elif k in ("copy", "raw", "name", "item"):
+            ce["copy"] = conc.text(e["c"], "c%d" % ek)
+        elif k == "lic":
+            # same synopsis (same payload id as the paragraph's), new text
+            ce["syn"], ce["text"] = conc.line(e["l"]["s"], "s%d" % ek), conc.text(e["l"]["t"], "t%d" % ek)
+        elif k == "add":
+            ce["para"], ce["at"] = para(e["a"], 9), e["at"]
+        return ce
+    calls = [dict(call(c["e"], 8), after=c["at"]) for c in case.get("calls", [])]
     if not case.get("edit"):
-        return hdr, ops, doc, None, None
+        return hdr, ops, doc, None, None, calls
     pre = [para(p, kof(p)) for p in case["pre"]]
     e = case["edit"][0]
     # (the keys of the concretization are those of the edited paragraph: the expected document `doc`
     # printed by TLC is concretized to exactly the values the edit sets)
-    ek = kof(case["pre"][e["i"] - 1]) if e["kind"] != "add" else 9
-    if e["kind"] == "files":
-        ce = {"kind": "files", "i": e["i"] - 1, "pats": conc.pats(e["p"])}
-    elif e["kind"] == "copy":
-        ce = {"kind": "copy", "i": e["i"] - 1, "copy": conc.text(e["c"], "c%d" % ek)}
-    elif e["kind"] == "lic":
-        # same synopsis (same payload id as the paragraph's), new text
-        ce = {"kind": "lic", "i": e["i"] - 1, "syn": conc.line(e["l"]["s"], "s%d" % ek), "text": conc.text(e["l"]["t"], "t%d" % ek)}
-    else:
-        ce = {"kind": "add", "para": para(e["a"], 9), "at": e["at"]}
-    return hdr, ops, doc, pre, [ce]
+    ek = kof(case["pre"][e["i"] - 1]) if e["kind"] in ("files", "copy", "lic") and not e["rej"] else (9 if e["kind"] == "add" else 8)
+    return hdr, ops, doc, pre, [call(e, ek)], calls
+
+
+def describe_call(e):
+    k = e["kind"]
+    tgt = "the header" if e.get("i", -1) < 0 else "paragraph %d" % (e["i"] + 1)
+    if k == "files":
+        return "%s.files = %r" % (tgt, e["pats"])
+    if k == "copy":
+        return "%s.copyright = %r" % (tgt, e["copy"])
+    if k == "lic":
+        return "%s.license = License(%r, %r)" % (tgt, e["syn"], e["text"])
+    if k == "raw":
+        return "%s.%s = %r" % (tgt, RAW_ATTR[e["f"]], e["copy"])
+    if k == "name":
+        return "header.upstream_name = %r" % (e["copy"],)
+    if k == "entries":
+        return "header.%s = %r" % (ENT_ATTR[e["f"]], e["pats"])
+    if k == "none":
+        return "%s.%s = None" % (tgt, NONE_ATTR[e["f"]])
+    if k == "item":
+        return "%s[%r] = %r" % (tgt, e["f"], e["copy"])
+    if k == "delitem":
+        return "del %s[%r]" % (tgt, e["f"])
+    if k == "wrongadd":
+        return {"Files": "add_files_paragraph(<not a FilesParagraph>)", "License": "add_license_paragraph(<not a LicenseParagraph>)",
+                "Header": "copyright.header = <not a Header>"}[e["f"]]
+    if k == "add":
+        return "add_%s_paragraph(...)" % e["para"]["kind"].lower()
+    return k
+
+
+def judge_calls(calls, diag=None):
+    """the calls of one execution against what the specification (TLC: rej, xexc in the CASE line) says about
+    each: (message or None, unspecified).  A call the specification refuses but the code carries out makes the
+    execution UNSPECIFIED (the statement does not say which values the API accepts; the document then holds a
+    value outside the domain); a call the specification accepts must not raise"""
+    for e in calls:
+        if "rej" not in e or "raised" not in e:
+            continue
+        if e["rej"] and not e["raised"]:
+            if diag is not None:
+                diag.append("%s is refused by the specification but was carried out" % describe_call(e))
+            return None, True
+        if not e["rej"] and e["raised"]:
+            return "%s raised %s" % (describe_call(e), e.get("msg") or e["exc"]), False
+        if e["rej"] and e["exc"] != e["xexc"] and diag is not None:
+            diag.append("%s raised %s, the specification names %s" % (describe_call(e), e["exc"], e["xexc"]))
+    return None, False
 
 
 def check_doc_case(case, conc, form="lines", dumpform="str", diag=None, vseed=None):
     """returns (message or None, observation)"""
-    hdr, ops, doc, pre, edits = doc_concretize(case, conc)
+    hdr, ops, doc, pre, edits, calls = doc_concretize(case, conc)
     first = doc if pre is None else pre
 
-    def choose(order):
+    def choose(order, _calls):
         # TLC's edit refers to TLC's paragraph order
         return edits if edits is not None and [ops[i] for i in order] == first else None
-    o = exec_doc(hdr, ops, "api", form, dumpform, choose, vseed)
+    o = exec_doc(hdr, ops, "api", form, dumpform, choose, vseed, calls)
+    real_edits = edits is not None and o["edits"] is not None and o["edits"] != SCRIBBLE
+    msg, unspecified = judge_calls(o["calls"] + (o["edits"] if real_edits else []), diag)
+    if unspecified:
+        return None, o
     expected2 = None
-    if edits is not None and o["edits"] is not None and o["edits"] != SCRIBBLE:
+    if real_edits:
         expected2 = doc
-        if o["edits"][0]["kind"] == "add" and o["edits"][0]["at"] != edits[0]["at"]:
+        if o["edits"][0]["kind"] == "add" and o["edits"][0].get("at", edits[0]["at"]) != edits[0]["at"]:
             expected2 = edited_doc(pre, o["edits"])
             if diag is not None:
                 diag.append("add_*_paragraph on the re-parsed document put the paragraph at %d, the specification at %d"
                             % (o["edits"][0]["at"], edits[0]["at"]))
-    msg = judge_doc(o, hdr, first, expected2)
+    # (a refused call changes nothing: TLC's expected documents `first` / `doc` are those of ApplyCall)
+    msg = msg or judge_doc(o, hdr, first, expected2)
+    if msg and o["calls"]:
+        msg += " -- calls made while the document was built: " + "; ".join(
+            "%s%s" % (describe_call(e), " [raised %s]" % e["exc"] if e.get("raised") else "") for e in o["calls"])
     if diag is not None and o["dump"] is not None and o["order"] is not None:
         # diagnostic: insertion order of add_* and the layout of dump() as the specification has them
         if [ops[i] for i in o["order"]] != first:
@@ -1227,7 +1618,10 @@ def _worker(args):
                 for v in o["var"]:
                     stats[v] = stats.get(v, 0) + 1
                 if case.get("edit"):
-                    ek = "edit_" + case["edit"][0]["kind"]
+                    ek = ("edit_refused_" if case["edit"][0]["rej"] else "edit_") + case["edit"][0]["kind"]
+                    stats[ek] = stats.get(ek, 0) + 1
+                for cl in case.get("calls", []):
+                    ek = "build_call_refused_" + cl["e"]["kind"]
                     stats[ek] = stats.get(ek, 0) + 1
             if diag:
                 drift += diag
@@ -1505,6 +1899,70 @@ def size_suite(rng, thorough):
     return docs
 
 
+# ---- block-boundary alignment (notes/SIZE_STRESS.md part 4): documents whose line ends / field ends / paragraph
+# separators / last byte fall exactly at, one before and one after the offsets 2^k of the dumped text (a block-wise
+# reader sees a block that ends right there), and multi-byte characters that straddle such an offset.  The header
+# value Upstream-Name is padded to steer the offset (everything in front of the target is ASCII: byte offset =
+# character offset, so the text forms and the binary forms are aligned alike).  The expected result is that of any
+# other document (the abstract case does not know about offsets); every document goes through a file-object form.
+ALIGN_MAIN = [4096, 8192, 65536, 131072]
+ALIGN_REST = [512, 1024, 2048, 16384, 32768]
+ALIGN_WHERE = ["value", "field", "sep", "end", "mbchar"]
+SLOW_FORMS = ("disk-unbuf", "short-reads", "short-text")
+
+
+def _align_template(pad, mb="\U0001f600"):
+    hdr = {"name": "p" * pad, "uc": ["A <a@example.org>", "B <b@example.org>"], "lic": None}
+    ops = [{"kind": "Files", "pats": ["ALIGN-FIELD/*", "src/*.c"], "copy": "2014 X\n 2015 Y", "syn": "MIT",
+            "text": "line one\n\nALIGN-VALUE line\nlast line"},
+           {"kind": "License", "pats": [], "copy": None, "syn": "GPL-2+", "text": "gpl line 1\n ALIGN-MB" + mb + " tail\n\nend"},
+           {"kind": "Files", "pats": ["debian/*"], "copy": "2015 Z", "syn": "GPL-2+", "text": ""}]
+    return hdr, ops
+
+
+def _align_offset(dump, where):
+    """byte offset (in the UTF-8 encoding) of the target: the newline that ends a line inside a value / a field / the
+    empty separator line / the text; for "mbchar" the first byte of the multi-byte character"""
+    data = dump.encode("utf-8")
+    try:
+        if where == "value":
+            return data.index(b"\n", data.index(b"ALIGN-VALUE"))
+        if where == "field":
+            return data.index(b"\n", data.index(b"Files: ALIGN-FIELD"))
+        if where == "sep":
+            return data.index(b"\n\n") + 1
+        if where == "end":
+            return len(data) - 1
+        return data.index(b"ALIGN-MB") + len(b"ALIGN-MB")
+    except ValueError:
+        return None              # (a tree that lays the text out differently: nothing to align)
+
+
+def aligned_suite(rng, thorough):
+    """[(hdr, ops, "api", form, dumpform, reqs, {"target", "delta", "where", "offset"})]"""
+    base = exec_doc(*_align_template(1))["dump"]
+    if not isinstance(base, str):
+        return []                       # (the tree cannot even dump the template: the ordinary legs report that)
+    combos = [(t, d, w) for t in ALIGN_MAIN for d in (-1, 0, 1) for w in ALIGN_WHERE]
+    rest = [(t, d, w) for t in ALIGN_REST for d in (-1, 0, 1) for w in ALIGN_WHERE]
+    combos += rest if thorough else rng.sample(rest, 6)
+    out = []
+    for n, (t, d, w) in enumerate(combos):
+        mb = rng.choice(["\u00e9", "\u4e2d", "\U0001f600"]) if w == "mbchar" else "\U0001f600"
+        # target newline at offset t-1+d (d = 0: the block ends with it); multi-byte character: first byte at t-1-|d| ... t-1
+        want = t - 1 + d if w != "mbchar" else t - 1 - (d + 1) % len(mb.encode("utf-8"))
+        off = _align_offset(base.replace("\U0001f600", mb), w)
+        if off is None or 1 + want - off < 1:
+            continue
+        pad = 1 + want - off
+        hdr, ops = _align_template(pad, mb)
+        form = FILE_FORMS[n % len(FILE_FORMS)]
+        if form in SLOW_FORMS and t > 16384 and not thorough and n % 4:
+            form = FILE_FORMS[(n // 2) % len(FILE_FORMS)] if FILE_FORMS[(n // 2) % len(FILE_FORMS)] not in SLOW_FORMS else "bytesio"
+        out.append((hdr, ops, "api", form, rng.choice(DUMP_FORMS), [], {"target": t, "delta": d, "where": w, "offset": want}))
+    return out
+
+
 def stressed_doc(rng, thorough):
     """a random document with one size dimension pushed to a boundary value"""
     hdr, ops, start, form, dumpform = random_doc(rng)
@@ -1578,16 +2036,186 @@ NO_LIC = {"syn": {"ind": 0, "b": "none", "id": []}, "text": [{"ind": 0, "b": "no
 NO_PARA = {"kind": "none", "pats": [], "copy": [], "lic": NO_LIC, "extra": []}
 
 
+def bad_text(rng):
+    """a raw field value Deb822.validate_input refuses (spec: ~Accepts): a continuation line that is not indented,
+    an empty line inside, a final newline -- never a white-space-only line (accepted, outside the domain)"""
+    good = random_copy(rng)
+    w = spice(rng, rng.choice(COPY_POOL))
+    r = rng.random()
+    if r < 0.4:
+        return good + "\n" + w + ("\n " + spice(rng, rng.choice(COPY_POOL)) if rng.random() < 0.3 else "")
+    if r < 0.65:
+        return good + "\n\n " + w
+    if r < 0.8:
+        return good + "\n"
+    if r < 0.9:
+        return good + "\n\n"
+    return good + "\n " + w + "\n"
+
+
+def bad_pats(rng):
+    """a pattern list _SpaceSeparated.to_str refuses (spec: BadList)"""
+    good = [rng.choice(PAT_POOL) for _ in range(rng.choice([0, 1, 1, 2, 3]))]
+    r = rng.random()
+    if r < 0.25:
+        return []
+    bad = "" if r < 0.45 else rng.choice(["a b", "tab\there", "x\ny", " lead", "trail ", "a\u00a0b", "two  blanks", "\t"])
+    good.insert(rng.randrange(len(good) + 1), bad)
+    return good
+
+
+def bad_entries(rng):
+    """a list _LineBased.to_str refuses: an entry that is empty / white space only / contains a newline"""
+    good = [rng.choice(CONTACT_POOL) for _ in range(rng.choice([0, 1, 1, 2]))]
+    good.insert(rng.randrange(len(good) + 1), rng.choice(["", " ", "a\nb", "Jane <j@example.org>\n John <k@example.org>", "\t"]))
+    return good
+
+
+def random_call(rng, kind, present, hdr=None):
+    """one call on a paragraph of `kind` ("Files" / "License") or on the header / document ("Header"), accepted or
+    refused (which: the specification decides, TLC); `present`: the names of the extra fields the target has, in
+    order (kept up to date here so that del p[key] is also made for existing keys).  Header calls never ADD one
+    of the fields the specification writes at a fixed place, and an existing extra field is only re-assigned when
+    it is the last one: whether a re-assigned field keeps its place is not this property's business (C09)"""
+
+    def settable(names):
+        return [f for f in names if f not in present or present[-1] == f]
+
+    def note(f):
+        if f not in present:
+            present.append(f)
+    bad = rng.random() < 0.55
+    if kind == "Header":
+        if bad:
+            k = rng.choice(["name", "entries", "raw", "none", "wrongadd", "wrongadd", "item", "delitem", "custom"])
+            if k == "custom":
+                return {"kind": "item", "f": rng.choice(["X-Custom", "X-Custom", "X-Other"]), "copy": bad_text(rng)}
+            if k == "name":
+                return {"kind": "name", "copy": rng.choice(NAME_POOL) + rng.choice(["\n", "\nx", "\n x", "\n\n"])}
+            if k == "entries":
+                return {"kind": "entries", "f": rng.choice(sorted(ENT_ATTR)), "pats": bad_entries(rng)}
+            if k == "raw":
+                return {"kind": "raw", "f": rng.choice(sorted(RAW_ATTR)), "copy": bad_text(rng)}
+            if k == "none":
+                return {"kind": "none", "f": "Format"}
+            if k == "wrongadd":
+                return {"kind": "wrongadd", "f": rng.choice(["Files", "License", "Header"])}
+            if k == "item":
+                return {"kind": "item", "f": rng.choice(["Format", "Upstream-Name", "License", "Files-Excluded", "Comment"]), "copy": "x"}
+            return {"kind": "delitem", "f": rng.choice(["Format", "Upstream-Contact", "Source", "X-Missing"])}
+        opts = ["raw", "item"]
+        if hdr.get("name") is not None:
+            opts += ["name", "name-none"]
+        if hdr.get("uc"):
+            opts.append("uc")
+        if hdr.get("lic") is not None:
+            opts.append("lic")
+        if present:
+            opts += ["del", "raw-none"]
+        k = rng.choice(opts)
+        if k == "raw":
+            f = rng.choice(settable(sorted(RAW_ATTR)) or ["X-Custom"])
+            k = "item" if f == "X-Custom" else k
+        if k == "item":
+            f = rng.choice(settable(["X-Custom", "X-Other", "X-Third"]) or ["X-%d" % len(present)])
+        if k in ("raw", "item"):
+            note(f)
+            return {"kind": k, "f": f, "copy": random_copy(rng) if k == "raw" else spice(rng, rng.choice(SOURCE_POOL))}
+        if k == "name":
+            return {"kind": "name", "copy": spice(rng, rng.choice(NAME_POOL))}
+        if k == "name-none":
+            hdr["name"] = None
+            return {"kind": "none", "f": "Upstream-Name"}
+        if k == "uc":
+            return {"kind": "entries", "f": "Upstream-Contact", "pats": [spice(rng, rng.choice(CONTACT_POOL)) for _ in range(rng.choice([1, 1, 2, 3]))]}
+        if k == "lic":
+            return {"kind": "lic", "syn": spice(rng, rng.choice(SYN_POOL)), "text": random_text(rng, 4)}
+        f = rng.choice(sorted(present))
+        present.remove(f)
+        if f in RAW_ATTR:                    # (restricted: removed through the property; del h[f] is refused)
+            return {"kind": "none", "f": f}
+        return {"kind": "delitem", "f": f}
+    if bad:
+        opts = ["raw", "custom", "none", "item", "delitem", "delmissing"] + (["files", "files", "copy", "copy", "copy", "none-f"] if kind == "Files" else [])
+        k = rng.choice(opts)
+        if k == "raw":
+            return {"kind": "raw", "f": "Comment", "copy": bad_text(rng)}
+        if k == "custom":
+            return {"kind": "item", "f": "X-Custom", "copy": bad_text(rng)}
+        if k == "none":
+            return {"kind": "none", "f": "License"}
+        if k == "none-f":
+            return {"kind": "none", "f": rng.choice(["Files", "Copyright"])}
+        if k == "item":
+            return {"kind": "item", "f": rng.choice(["License", "Comment"] + (["Files", "Copyright"] if kind == "Files" else ["Files"])), "copy": "x"}
+        if k == "delitem":
+            return {"kind": "delitem", "f": rng.choice(["License", "Comment"] + (["Files", "Copyright"] if kind == "Files" else []))}
+        if k == "delmissing":
+            return {"kind": "delitem", "f": "X-Missing"}
+        if k == "files":
+            return {"kind": "files", "pats": bad_pats(rng)}
+        return {"kind": "copy", "copy": bad_text(rng)}
+    opts = ["lic", "raw", "item"] + (["files", "copy"] if kind == "Files" else []) + (["del", "raw-none"] if present else [])
+    k = rng.choice(opts)
+    if k == "files":
+        return {"kind": "files", "pats": [spice(rng, rng.choice(PAT_POOL)) for _ in range(rng.choice([1, 2, 3]))]}
+    if k == "copy":
+        return {"kind": "copy", "copy": random_copy(rng)}
+    if k == "lic":
+        return {"kind": "lic", "syn": None, "text": random_text(rng, 5)}          # (syn: filled in by the caller)
+    if k == "raw" and not settable(["Comment"]):
+        k = "item"
+    if k == "raw":
+        note("Comment")
+        return {"kind": "raw", "f": "Comment", "copy": random_copy(rng)}
+    if k == "item":
+        f = rng.choice(settable(["X-Custom", "X-Origin", "X-Other"]) or ["X-%d" % len(present)])
+        note(f)
+        return {"kind": "item", "f": f, "copy": spice(rng, rng.choice(SOURCE_POOL))}
+    f = rng.choice(sorted(present))
+    present.remove(f)
+    if f == "Comment":                       # (restricted: removed through the property; del p['Comment'] is refused)
+        return {"kind": "none", "f": "Comment"}
+    return {"kind": "delitem", "f": f}
+
+
+def random_calls(rng, hdr, ops):
+    """the other calls of a build history (accepted and refused setter calls, item access, add_* of the wrong
+    class), each after `after` add_* calls on paragraph `i` of ops (-1: header / document)"""
+    if rng.random() < 0.45:
+        return []
+    hdr = dict(hdr)
+    present = {-1: [kv[0] for kv in hdr.get("extra") or []]}
+    for i, op in enumerate(ops):
+        present[i] = [kv[0] for kv in op.get("extra") or []]
+    syn = {i: op["syn"] for i, op in enumerate(ops)}
+    out = []
+    for after in sorted(rng.randrange(len(ops) + 1) for _ in range(rng.choice([1, 1, 2, 2, 3, 5]))):
+        i = rng.randrange(-1, after) if after else -1
+        if i >= 0 and rng.random() < 0.5:
+            i = after - 1                    # mostly the paragraph added last
+        e = random_call(rng, "Header" if i < 0 else ops[i]["kind"], present[i], hdr)
+        if e["kind"] == "lic" and i >= 0:
+            if e["syn"] is None:
+                e["syn"] = syn[i] if rng.random() < 0.7 else rng.choice(SYN_POOL)
+            syn[i] = e["syn"]
+        out.append(dict(e, i=i, after=after))
+    return out
+
+
 def random_edit_requests(rng):
     """what to change in the re-parsed document: setter edits first, add_* calls last; the paragraph a
-    setter edit applies to is chosen (by `r`) among the eligible paragraphs once the order is known"""
+    setter edit applies to is chosen (by `r`) among the eligible paragraphs once the order is known;
+    "call" requests: any other call (accepted or refused) on a paragraph / the header, made in between"""
     reqs = []
     for _ in range(rng.choice([0, 1, 1, 2, 3])):
-        k = rng.choice(["files", "copy", "lic", "lic"])
+        k = rng.choice(["files", "copy", "lic", "lic", "call", "call"])
         if k == "files":
             reqs.append({"kind": "files", "r": rng.random(), "pats": [rng.choice(PAT_POOL) for _ in range(rng.choice([1, 2, 3]))]})
         elif k == "copy":
             reqs.append({"kind": "copy", "r": rng.random(), "copy": random_copy(rng)})
+        elif k == "call":
+            reqs.append({"kind": "call", "r": rng.random(), "on": rng.choice(["Files", "Files", "License", "Header"]), "seed": rng.getrandbits(30)})
         else:   # mostly: same synopsis, another text
             reqs.append({"kind": "lic", "r": rng.random(), "keep_syn": rng.random() < 0.7,
                          "syn": rng.choice(SYN_POOL), "text": random_text(rng, 5)})
@@ -1601,14 +2229,31 @@ def random_edit_requests(rng):
     return reqs
 
 
-def resolve_edits(reqs, ops, order):
-    """edit requests -> edits on the document whose paragraphs are ops in `order`"""
-    cur = [ops[j] for j in order]
+def resolve_edits(reqs, ops, order, hdr=None, calls=()):
+    """edit requests -> edits on the document whose paragraphs are ops in `order` (after the calls of the
+    build phase that did not raise)"""
+    cur = edited_doc(ops, calls)
+    cur = [cur[j] for j in order]
+    hdr = edited_hdr(hdr or {}, calls)
     syn = [p["syn"] for p in cur]
+    present = {-1: [kv[0] for kv in hdr.get("extra") or []]}
+    for i, p in enumerate(cur):
+        present[i] = [kv[0] for kv in p.get("extra") or []]
     out = []
     for q in reqs:
         if q["kind"] == "add":
             out.append({"kind": "add", "para": q["para"]})
+            continue
+        if q["kind"] == "call":
+            elig = [-1] if q["on"] == "Header" else [i for i, p in enumerate(cur) if p["kind"] == q["on"]]
+            if not elig:
+                continue
+            i = elig[int(q["r"] * len(elig)) % len(elig)]
+            e = random_call(random.Random(q["seed"]), q["on"], present[i], hdr)
+            if e["kind"] == "lic" and i >= 0:
+                e["syn"] = syn[i] if e["syn"] is None else e["syn"]
+                syn[i] = e["syn"]
+            out.append(dict(e, i=i))
             continue
         elig = [i for i, p in enumerate(cur) if q["kind"] == "lic" or p["kind"] == "Files"]
         if not elig:
@@ -1625,13 +2270,31 @@ def resolve_edits(reqs, ops, order):
     return out
 
 
+def abs_word(p, it, ctx="pat"):
+    """a word of a list as the specification has it: 0 = '', -2 = contains a separator of the list syntax,
+    -1 = '.', otherwise an interned payload id"""
+    if p == "":
+        return 0
+    if any(ch.isspace() for ch in p) if ctx == "pat" else "\n" in p:
+        return -2
+    return -1 if p == "." else it(p)
+
+
+def abs_entry(e, it):
+    if "\n" in e:
+        return [-2]
+    return abs_words(abs_line(e.strip(), it)) if e.strip() else []
+
+
 def abs_edit(e, it):
-    if e["kind"] == "add":
-        return {"kind": "add", "i": 0, "at": e["at"], "pats": [], "copy": [], "lic": NO_LIC, "para": abs_para(e["para"], it)}
-    return {"kind": e["kind"], "i": e["i"] + 1, "at": 0,
-            "pats": [abs_pat(x, it) for x in e["pats"]] if e["kind"] == "files" else [],
-            "copy": abs_str(e["copy"], it) if e["kind"] == "copy" else [],
-            "lic": abs_lic(e["syn"], e["text"], it) if e["kind"] == "lic" else NO_LIC, "para": NO_PARA}
+    """a call as the EditRec of the specification plus what was observed (raised, exc)"""
+    k = e["kind"]
+    return {"kind": k, "i": e.get("i", -1) + 1 if k != "add" else 0, "at": e.get("at", 0) if k == "add" else 0, "f": e.get("f", ""),
+            "pats": ([abs_word(x, it) for x in e["pats"]] if k == "files" else [abs_entry(x, it) for x in e["pats"]] if k == "entries" else []),
+            "copy": abs_str(e["copy"], it) if k in ("copy", "raw", "name", "item") else [],
+            "lic": abs_lic(e["syn"], e["text"], it) if k == "lic" else NO_LIC,
+            "para": abs_para(e["para"], it) if k == "add" else NO_PARA,
+            "raised": bool(e.get("raised")), "exc": e.get("exc", "")}
 
 
 def abs_load(o, hkey, pkey, it, ok):
@@ -1645,12 +2308,15 @@ def abs_load(o, hkey, pkey, it, ok):
             "paras": [abs_para(p, it) for p in o[pkey]]}
 
 
-def record_doc(hdr, ops, start, form, dumpform, reqs=(), vseed=None):
+def record_doc(hdr, ops, start, form, dumpform, reqs=(), vseed=None, calls=()):
     """execute and abstract one document execution; returns (trace, observation)"""
     from debian import copyright as C
-    o = exec_doc(hdr, ops, start, form, dumpform, lambda order: resolve_edits(reqs, ops, order), vseed)
+    o = exec_doc(hdr, ops, start, form, dumpform, lambda order, done: resolve_edits(reqs, ops, order, hdr, done), vseed, calls)
     it = Interner(o["format0"] if isinstance(o["format0"], str) else getattr(C, "_CURRENT_FORMAT", "format"))
     tr = {"kind": "doc", "start": start, "hdr": abs_hdr(hdr, it), "ops": [abs_para(p, it) for p in ops],
+          # the other calls of the build phase, each with what was observed (raised, exc); calls that were not
+          # reached (the build failed before) are left out
+          "calls": [abs_edit(e, it) for e in o["calls"] if "raised" in e],
           "order": [i + 1 for i in (o["order"] if o["order"] is not None else range(len(ops)))],
           "dump": abs_dump(o["dump"], it) if isinstance(o["dump"], str) else [],
           "warn": len(o["warn"]), "fmtlast": bool(o["alias"]),
@@ -1661,7 +2327,7 @@ def record_doc(hdr, ops, start, form, dumpform, reqs=(), vseed=None):
         tr["load"] = {"err": o["exc"], "hdr": FAILED_HDR, "paras": []}
     else:
         tr["load"] = abs_load(o, "hdr", "paras", it, o["paras"] is not None)
-    done_edit = o["edits"] is not None and o["edits"] != SCRIBBLE and all(e["kind"] != "add" or "at" in e for e in o["edits"])
+    done_edit = o["edits"] is not None and o["edits"] != SCRIBBLE and all("raised" in e and (e["kind"] != "add" or e["raised"] or "at" in e) for e in o["edits"])
     tr["edits"] = [abs_edit(e, it) for e in o["edits"]] if done_edit else []
     tr["load2"] = abs_load(o, "hdr2", "paras2", it, o["paras2"] is not None)
     tr["same2"] = bool(o["dump4"] is not None and o["dump4"] == o["dump3"])
@@ -1734,7 +2400,7 @@ def control_traces(traces):
     import copy
     out = []
     want = {"swap", "same", "indent", "err", "codec-indent", "codec-drop", "warn", "stale-edit", "leak-again",
-            "codec-aliased"}
+            "codec-aliased", "refused-call-silent", "accepted-call-raised", "refused-edit-applied"}
     for t in traces:
         if not want:
             break
@@ -1772,6 +2438,27 @@ def control_traces(traces):
                 c["load3"] = copy.deepcopy(t["load2"])
                 out.append(c)
                 want.discard("leak-again")
+            hit = [j for j, e in enumerate(t["calls"]) if e["raised"]]
+            if "refused-call-silent" in want and hit:
+                c = copy.deepcopy(t)            # a call the specification refuses did not raise
+                c["calls"][hit[0]]["raised"] = False
+                out.append(c)
+                want.discard("refused-call-silent")
+            hit = [j for j, e in enumerate(t["calls"]) if not e["raised"]]
+            if "accepted-call-raised" in want and hit:
+                c = copy.deepcopy(t)            # a call the specification accepts raised
+                c["calls"][hit[0]]["raised"] = True
+                out.append(c)
+                want.discard("accepted-call-raised")
+            hit = [j for j, p in enumerate(t["load2"]["paras"]) if p["kind"] == "Files"] if t["load2"]["err"] == "none" else []
+            if "refused-edit-applied" in want and hit:
+                c = copy.deepcopy(t)            # one more (refused) call at the end, whose value shows up after the second round trip
+                badv = [{"ind": 0, "b": "txt", "id": [9991]}, {"ind": 0, "b": "txt", "id": [9992]}]
+                c["edits"].append({"kind": "copy", "i": hit[0] + 1, "at": 0, "f": "", "pats": [], "copy": badv, "lic": NO_LIC, "para": NO_PARA,
+                                   "raised": True, "exc": "ValueError"})
+                c["load2"]["paras"][hit[0]]["copy"] = badv
+                out.append(c)
+                want.discard("refused-edit-applied")
             if "indent" in want:
                 for i, p in enumerate(ps):
                     hit = [j for j, x in enumerate(p["lic"]["text"]) if x["ind"] > 0]
@@ -1851,19 +2538,24 @@ HISTORY = 300      # documents executed before a failing one that are kept in it
 
 
 DOC_STEP = {0: "order after the add_* calls (diagnostic)", 1: "layout of dump() (diagnostic)", 2: "reader (diagnostic)",
-            3: "RoundTrip: the strict re-parse does not give back the document that was built",
+            3: "RoundTrip: the strict re-parse does not give back the document that was built (a call the API refuses changes nothing), or a call the specification accepts raised",
             4: "Stable: the second dump() differs from the first",
             5: "second round trip: after changing the re-parsed document, dump() + strict re-parse do not describe the changed document",
             6: "parsing the first dump again (after the first parse result was changed) does not give the document that was built"}
 
 
 def explain_doc(hdr, ops, o, at):
-    exp = [ops[i] for i in o["order"]] if o["order"] is not None else ops
-    exp2 = None
-    if o["edits"] is not None and o["edits"] != SCRIBBLE and all(e["kind"] != "add" or "at" in e for e in o["edits"]):
-        exp2 = edited_doc(exp, o["edits"])
-    msg = judge_doc(o, hdr, exp, exp2)
-    return "%s; %s" % (DOC_STEP.get(at, "step %d" % at), msg or "(the concrete comparison sees no difference)")
+    """a concrete description of a trace TLC rejected (the verdict is TLC's)"""
+    hdr1, ops1 = edited_hdr(hdr, o["calls"]), edited_doc(ops, o["calls"])
+    exp = [ops1[i] for i in o["order"]] if o["order"] is not None else ops1
+    exp2 = hdr2 = None
+    if o["edits"] is not None and o["edits"] != SCRIBBLE and all("raised" in e and (e["kind"] != "add" or e["raised"] or "at" in e) for e in o["edits"]):
+        exp2, hdr2 = edited_doc(exp, o["edits"]), edited_hdr(hdr1, o["edits"])
+    msg = judge_doc(o, hdr1, exp, exp2, hdr2)
+    calls = "; ".join("%s%s" % (describe_call(e), " [raised %s]" % e.get("msg", e["exc"]) if e.get("raised") else "")
+                      for e in o["calls"] if "raised" in e)
+    return "%s; %s%s" % (DOC_STEP.get(at, "step %d" % at), msg or "(the concrete comparison sees no difference: a call raised / did not raise against the specification?)",
+                         (" -- calls made while the document was built: " + calls) if calls else "")
 
 
 def run_traces(ctx, quick, pool=None):
@@ -1877,23 +2569,48 @@ def run_traces(ctx, quick, pool=None):
     prev = None
     leaks = []
     suite = size_suite(rng, not quick)
+    nsize = len(suite)
+    suite += aligned_suite(rng, not quick)
+    ndoc += len(suite) - nsize
+    aligned_done, misaligned = {}, 0
     csuite = codec_suite(rng, not quick)
     nstress = 0
     for n in range(ndoc):
         if n < len(suite):
-            hdr, ops, start, form, dumpform, reqs = suite[n]
+            hdr, ops, start, form, dumpform, reqs = suite[n][:6]
+            # (the size suite: refused calls on every third document, on its largest paragraph and on the header)
+            calls = []
+            if n % 3 == 0 and ops:
+                big_i = max(range(len(ops)), key=lambda j: len(ops[j]["pats"]) + len(ops[j]["text"]))
+                calls = [{"kind": "copy" if ops[big_i]["kind"] == "Files" else "raw", "f": "Comment", "copy": "2014 X\n\n 2015 Y", "i": big_i, "after": len(ops)},
+                         {"kind": "raw", "f": "Comment", "copy": "a\nb", "i": -1, "after": len(ops)},
+                         {"kind": "none", "f": "License", "i": big_i, "after": len(ops)},
+                         {"kind": "item", "f": "License", "copy": "x", "i": big_i, "after": len(ops)}]
         elif rng.random() < 0.06:
             hdr, ops, start, form, dumpform = stressed_doc(rng, not quick)
             reqs = random_edit_requests(rng)
+            calls = random_calls(rng, hdr, ops)
             nstress += 1
         else:
             hdr, ops, start, form, dumpform = random_doc(rng)
             reqs = random_edit_requests(rng)
+            calls = random_calls(rng, hdr, ops)
         vseed = rng.getrandbits(30) if rng.random() < 0.75 else None
-        tr, o = record_doc(hdr, ops, start, form, dumpform, reqs, vseed)
+        if n < len(suite) and len(suite[n]) > 6:          # an aligned document: slow file objects only for the first parse
+            vseed = None if form in SLOW_FORMS or suite[n][6]["target"] > 16384 and quick else vseed
+        tr, o = record_doc(hdr, ops, start, form, dumpform, reqs, vseed, calls)
+        if n < len(suite) and len(suite[n]) > 6:
+            al = suite[n][6]
+            if isinstance(o["dump"], str) and _align_offset(o["dump"], al["where"]) == al["offset"]:
+                key = "%s@2^k%+d" % (al["where"], al["delta"])
+                aligned_done[key] = aligned_done.get(key, 0) + 1
+            else:
+                misaligned += 1           # (a tree that lays the text out differently: the case is an ordinary one then)
         traces.append(tr)
         me = {"kind": "trace-doc", "hdr": hdr, "ops": ops, "start": start, "form": form, "dumpform": dumpform, "reqs": reqs,
-              "vseed": vseed}
+              "vseed": vseed, "calls": calls}
+        if n < len(suite) and len(suite[n]) > 6:
+            me["aligned"] = suite[n][6]
         metas.append(("doc", hdr, ops, start, form, dumpform, o, me))
         if prev is not None:
             msg = prev.recheck()            # the objects of the previous document must not have changed
@@ -1907,7 +2624,11 @@ def run_traces(ctx, quick, pool=None):
         for p in ops:
             kinds[p["kind"]] += 1
         for e in tr["edits"]:
-            nedits[e["kind"]] = nedits.get(e["kind"], 0) + 1
+            k = ("refused " if e["raised"] else "") + e["kind"]
+            nedits[k] = nedits.get(k, 0) + 1
+        for e in tr["calls"]:
+            k = "build call: " + ("refused " if e["raised"] else "") + e["kind"]
+            nedits[k] = nedits.get(k, 0) + 1
     prev = None
     nreject = 0
     for text in reject_texts(rng):
@@ -1923,6 +2644,8 @@ def run_traces(ctx, quick, pool=None):
         tr["_dom"] = dom
         traces.append(tr)
         metas.append(("codec", lines, o))
+    ctx.extra["aligned_cases"] = dict(aligned_done, documents=sum(aligned_done.values()), not_aligned_on_this_tree=misaligned,
+                                      offsets=sorted({x[6]["target"] for x in suite if len(x) > 6}))
     fut = pool.submit(validate, ctx, traces) if pool is not None else None
     ctx.extra.setdefault("per_action_counts", {})["trace_rejected_inputs_x_forms"] = nreject * len(REJECT_FORMS)
 
@@ -1963,6 +2686,11 @@ def _finish_traces(ctx, traces, metas, ndoc, ncodec, kinds, nedits, leaks, suite
                 ctx.drift("trace %d: specification's '%s' prediction differs (%s)" % (
                     tid, w, repr(m[1])[:200] if m[0] == "codec" else repr(m[6]["dump"])[:300]))
     ctx.extra["diagnostic_notes"] = sum(len(v) for v in notes.values())
+    # a call the specification refuses was carried out by the code: the document holds a value outside the
+    # domain from then on -- unspecified (TLC's note), never a verdict
+    unspec = {tid for tid, what in notes.items() if "refused call carried out" in what}
+    ctx.extra["traces_unspecified_refused_call_carried_out"] = len(unspec)
+    rejected = [i for i in rejected if i not in unspec]
     # one document trace and one codec trace are filed (the replay leg files its own cases)
     filed = ([i for i in rejected if metas[i - 1][0] == "doc"][:1] + [i for i in rejected if metas[i - 1][0] == "codec"][:1]
              + [i for i in rejected if metas[i - 1][0] == "reject"][:1])
@@ -2065,7 +2793,7 @@ def run(ctx):
     ]
     procs = 6 if quick else 8
     # quick: one control per switch; thorough: all five and the all-off runs
-    negs = [NEG_CONTROLS[1], NEG_CONTROLS[2], NEG_CONTROLS[5], NEG_CONTROLS[6], NEG_CONTROLS[7]] if quick else NEG_CONTROLS
+    negs = [NEG_CONTROLS[1], NEG_CONTROLS[2], NEG_CONTROLS[5], NEG_CONTROLS[6], NEG_CONTROLS[7], NEG_CONTROLS[8], NEG_CONTROLS[9]] if quick else NEG_CONTROLS
     import multiprocessing
     # the replay processes are forked before any thread exists
     _SCRATCH["dir"] = ctx.work               # (before the fork: the pool processes use it too)
@@ -2105,11 +2833,16 @@ def _run(ctx, quick, cfg_codec, cfg_doc, negs, mp_pool, procs):
             ctx.transitions += r.generated
         finish_traces()
         ctx.extra["spec_negative_controls"] = [f.result() for f in f_negs]
+        pac = ctx.extra.get("per_action_counts", {})
+        ctx.extra["file_object_kinds"] = {
+            desc: pac.get(form if form.startswith("dump:") else "parse:" + form, 0)
+            + pac.get("trace_edit_(api) " + (form if form.startswith("dump:") else "parse:" + form), 0)
+            for form, desc in FILE_KINDS.items()}
 
 
 def _rerun_trace_doc(case):
     return record_doc(case["hdr"], case["ops"], case["start"], case.get("form", "lines"), case.get("dumpform", "str"),
-                      case.get("reqs", ()), case.get("vseed"))
+                      case.get("reqs", ()), case.get("vseed"), case.get("calls", ()))
 
 
 def _replay_doc_sequence(case):
@@ -2161,8 +2894,8 @@ def replay(ctx, case):
         tr, o = _rerun_trace_doc(case)
         if k == "trace-pair":
             return prev.recheck() if prev is not None else None
-        rejected, info, _, _ = validate(ctx, [tr], with_controls=False)
-        if rejected:
+        rejected, info, notes, _ = validate(ctx, [tr], with_controls=False)
+        if rejected and "refused call carried out" not in notes.get(1, []):
             return "execution still not explained by the specification: " + explain_doc(case["hdr"], case["ops"], o, info.get(1, 0))
         return None
     return "unknown case kind"
